@@ -275,7 +275,10 @@ def _canonical_quantifier(call: ast.Call) -> Optional[Tuple[str, str]]:
         neg_elt = not neg_elt
     from ..model import parent as _parent
     par = _parent(call)
-    neg_out = isinstance(par, ast.UnaryOp) and isinstance(par.op, ast.Not)
+    neg_out = False
+    while isinstance(par, ast.UnaryOp) and isinstance(par.op, ast.Not):       # not not any(..): parity of the enclosing negations
+        neg_out = not neg_out
+        par = _parent(par)
     table = {("any", False, False): "any", ("any", True, False): "notall", ("any", False, True): "none", ("any", True, True): "all",
              ("all", False, False): "all", ("all", True, False): "none", ("all", False, True): "notall", ("all", True, True): "any"}
     return table[(q, neg_elt, neg_out)], src(elt)
@@ -299,11 +302,15 @@ def rule_quantifiers(repo: Repo) -> List[Ob]:
                     seen.add((rp, name))
                     key = f"{rp}::quantifier::{name}"
                     # an `if not any(..)`-style use whose negation is applied elsewhere cannot be told apart here: only the direct forms are compared
-                    ok = quant == want
+                    # the guard may be used negated at the site (`while not <guard>`; the same after a one-line predicate helper was
+                    # inlined): the enclosing `not` is folded into the quantifier, so the negation of the reviewed quantifier is the
+                    # same guard, and the negation of its flip is the same mistake
+                    negq = {"any": "none", "none": "any", "all": "notall", "notall": "all"}
+                    ok = quant in (want, negq[want])
                     flipped = {"any": "all", "all": "any", "none": "notall", "notall": "none"}[want]
                     if ok:
                         obs.append(Ob("E-quantifier", key, rp, n.lineno, f.qualname, True, f"{want.upper()}: {reason}"))
-                    elif quant == flipped:
+                    elif quant in (flipped, negq[flipped]):
                         obs.append(Ob("E-quantifier", key, rp, n.lineno, f.qualname, False,
                                       f"`{src(n)[:70]}` quantifies {quant.upper()} where the argument needs {want.upper()}: {reason}"))
                     else:
